@@ -106,4 +106,154 @@ CHECKS = {
                 "the lexical tokenizer of the harness, the embedding of model ids into u32.",
         "technique": "TLA+ explorer + judge specs checked by TLC; TLC-generated stimuli replayed on the real code; trace validation by TLC",
     },
+    "C01": {
+        "text": "TLC checks SlabPool.tla (RawOpaquePool as built: per-slab free lists, counts, vacancy bitmap in blocks incl. leftover bits, cached "
+                "next vacancy, reserve / shrink_to_fit, blind-pool layout routing) for every operation history within the bounds against the invariants "
+                "of SlabInv, the action property StableExclusive (address of a live object never changes, addresses injective, slots occupied) and "
+                "refinement to the judge PoolAbs; SlabLayout.tla proves slot geometry (object inside its slot, aligned, disjoint from every tag and "
+                "every other object) for size 1..40 x align 1..64 x tag layouts; VacancyMap.tla the bitmap on its own. Every transition of the explorer "
+                "graphs is replayed on all nine real pool types with hook H1 making slabs Cap objects wide, plus seeded random histories, a history "
+                "crossing the real 64-slab bitmap block and a sweep over payload layouts (size 1..>1 MiB, align 1..4096); every recorded operation "
+                "(addresses, canary values, byte intervals of live objects / tags / freed slabs, probed bookkeeping) is judged by Trace_PoolAbs in TLC.",
+        "note": "Exhaustive within Cap in {2,3}, Block in {2,4}, <=4-8 slabs; the real block size 64 and big layouts by replay only. Trusted: TLC, hook H1's "
+                "read-only probe, the harness's address -> small id / rank compression (order and equality preserved), the global allocator's alignment.",
+        "technique": "TLA+ explorer + judge checked by TLC; edge-cover replay of TLC behaviours on the nine real pool types; trace validation by TLC",
+    },
+    "C02": {
+        "text": "TLC checks Handles.tla (unique / shared / raw handles x typed / erased / dyn views, one remover per shared family with its count, "
+                "extraction by value, both drop policies, drop-pool) for all handle and drop histories of <=2 objects x 3 handles (thorough 3x3 and 4x2): "
+                "destructor at most once, never while a handle exists, never for an extracted object, must-not-drop pool panics iff non-empty; the "
+                "accounting invariants (length = sum of slab counts = live objects, capacity >= len, no vacancy forgotten) and the reserve contract "
+                "(reserve(n) then n inserts do not grow capacity) are checked on SlabPool.tla. The C01 recordings (edge-cover replay + random histories on "
+                "the nine pool types) are judged by Trace_Handles in TLC against the drop-counting payload's destructor log, panics, len / is_empty / "
+                "capacity and forward / backward / double-ended iteration after every operation.",
+        "note": "Bounds as listed in evidence tlc_runs; larger histories sampled. Destructor runs are attributed by the address the payload logs from "
+                "`drop(&mut self)`. Panicking destructors are C04's subject. Trusted: TLC, hook H1 probe, harness recording.",
+        "technique": "TLA+ handle-layer judge + explorer checked by TLC; edge-cover replay on the nine real pool types; trace validation by TLC",
+    },
+    "C08": {
+        "text": "TLC checks implementation-shaped explorers of auto.rs and manual.rs (one action per atomic step / mutex acquisition, awaiter list, "
+                "lifecycle byte, re-poll with a new waker, drop of pending / notified waits) with linearizability as a state variable (LinMonitor: the "
+                "set of configurations of the sequential judge ResetEventAbs consistent with the history so far must stay non-empty) plus wake "
+                "obligations (latest waker invoked, no signal lost at quiescence) for all interleavings of 3 threads x 2 calls; the single-threaded "
+                "variants through a call-stack explorer with re-entrant wakers; AwaiterSet at pointer level against a sequence abstraction; both events "
+                "again through RC11 with the memory orderings measured from the instrumented code. One schedule per reachable explorer state, simulated "
+                "behaviours and seeded random/PCT schedules are executed on the real boxed and embedded events under the deterministic scheduler (hook "
+                "H3); every recorded invocation/response/wake history is judged by the same monitor in TLC, every step log is checked for conformance "
+                "to the explorer (fidelity, ordering table), AwaiterSet API histories are judged by Trace_AwaiterSet.",
+        "note": "Exhaustive for 3 threads x 2 calls (role menus in quick; every call for every thread in thorough). Executions under the scheduler are "
+                "sequentially consistent; weak-memory outcomes are decided on the RC11 fragment only. Assumes the Future contract (one poller at a time, "
+                "no poll after Ready). Trusted: TLC, shim atomics / cooperative mutex of hook H3, the scheduler's total order.",
+        "technique": "TLA+ explorers with a linearizability monitor over a sequential TLA+ judge, checked by TLC (SC and RC11 with measured orderings); "
+                     "schedule replay of TLC behaviours on the real events; history and step-level trace validation by TLC",
+    },
+    "C10": {
+        "text": "TLC checks Pinning.tla (the library's per-thread, per-hardware-instance pin cache as the code maintains it) against the judge PinningAbs "
+                "(OS affinity = last pin; every answer owed to the last pin of that thread on that instance) for every history of pin / spawn_threads / "
+                "spawn_thread by 2 threads through 2 hardware instances over 3 abstract processors, and CpuMask.tla (words x bits with a width; set "
+                "semantics independent of width). Every enumerated history is replayed on the real kernel (the harness reads sched_getaffinity / "
+                "sched_getcpu itself after every operation) and on the H4 platform over a harness kernel storing raw mask bytes (ids >= 64, word "
+                "embeddings, 1024..8192 cpus), plus subsets of the real processors; the recorded event log is judged by Trace_Pinning and "
+                "Trace_CpuMask in TLC.",
+        "note": "Real kernel limited to the sandbox's 16 processors; larger ids only through the substituted binding, which follows "
+                "kernel/sched/syscalls.c for mask lengths. Trusted: TLC, libc affinity calls in the harness, hook H4.",
+        "technique": "TLA+ explorer + judge checked by TLC; TLC-enumerated histories replayed on the real kernel and a harness kernel; stateful trace validation by TLC",
+    },
+    "C12": {
+        "text": "TLC checks LinkedStatics.tla (StaticInstances::get step by step: local lookup, read lock, create outside the lock, insert-if-vacant, "
+                "clone, cache; nested initialisers over every DAG of <=3 statics, <=3 threads) and PerThread.tla (InstancePerThread(Sync) acquire / clone / "
+                "move to another thread / drop, every program of <=3-4 operations) against the judge LinkedAbs: one initial instance exposed, one family, "
+                "at most one live instance per thread created there and dropped exactly with its last aligned reference wherever dropped; deadlock "
+                "freedom and termination under fairness. One witness per distinct terminal state plus random walks are replayed as schedule scripts on the "
+                "real crate through the H5 yield points (drift measured), re-run under random / PCT schedules and free-running in child processes under a "
+                "watchdog; every recorded event is judged by LinkedAbs in TLC.",
+        "note": "Bounds: <=3 statics, <=3 threads; code between two yield points is atomic (SC). InstancePerThread (Rc) has no yield points and is replayed "
+                "atomically. Trusted: TLC, scheduler, the instrumented linked object of the harness.",
+        "technique": "TLA+ explorers + judge checked by TLC (safety, deadlock, liveness); schedule replay on the real crate; trace validation by TLC",
+    },
+    "C13": {
+        "text": "TLC checks RegionCached.tla (with_cached / set_global step by step: slot states, latest value + generation, initialise by CAS, "
+                "invalidation, the re-check of the latest generation) and RegionLocal.tla against the judge RegionAbs (R0 reads return written values, "
+                "R1 own write visible unless overwritten, R2 no writer's values out of order per reader and region, R3 at quiescence every read returns the "
+                "last value) over every interleaving of each scenario of RegionScenarios on 2 regions, with deadlock freedom and termination under "
+                "fairness. Witness behaviours per terminal state and random walks are replayed as schedule scripts on the real crates over fake hardware "
+                "through the H6 yield points (drift measured); the same and seeded random programs on 1..8 regions run under random / PCT schedules; "
+                "every trace ends with a probe read of every region and is judged by RegionAbs in TLC.",
+        "note": "Bounds: 2 regions; 2-3 threads exhaustively, 2 writers x 2 writes + 2 readers exhaustively for region_local (thorough) and by random walks "
+                "for region_cached. SC only. Trusted: TLC, scheduler, the crate's fake hardware (test-util).",
+        "technique": "TLA+ explorers + judge checked by TLC (safety, deadlock, liveness); schedule replay on the real crates; trace validation by TLC",
+    },
+    "C14": {
+        "text": "TLC checks Vicinal.tla (one action per scheduling point: lazily created per-processor state, two queues under locks, event-listener "
+                "registration before re-check, workers_spawned CAS, worker loop, shutdown store / signal / join, schedulers outliving the pool; its "
+                "switches are read from the source) against VicinalAbs: a task runs at most once on a worker of the spawner's processor, outcome = value / "
+                "panic / abandoned only if never run and drop started; liveness under weak fairness: every join handle resolves, spawn returns, drop "
+                "terminates, no worker left. Breadth-first witnesses of named situations and simulated walks are replayed step by step on the real pool "
+                "(hook H7, fake hardware and the real CPUs) under the deterministic scheduler with structural deadlock detection, plus seeded random/PCT "
+                "schedules and free-running scenarios in a child process under a watchdog; every trace is judged by Trace_Vicinal in TLC.",
+        "note": "Bounds: 2 processors, 1 worker each, 2 spawners x 2 tasks, drop at any point, one late scheduler. SC interleavings of the hook points; "
+                "nested spawns from task bodies not explored; event-listener semantics as modelled. Trusted: TLC, scheduler, hook H7 placement.",
+        "technique": "TLA+ explorer + judge checked by TLC incl. liveness under fairness; schedule replay on the real pool; trace validation by TLC",
+    },
+    "C16": {
+        "text": "TLC checks Metrics.tla (per thread x event bag of count / sum / bucket counts, dirty bitmap with the overflow bit at index OV, push mirrors "
+                "and last_pushed_count, registry, archive of exited threads) against the judge MetricsAbs in every state of every history of observe / "
+                "batch / push / exit / respawn / report: report = pull totals + what push events had at their last push, exited threads included, "
+                "placement in the first bucket with bound >= m else overflow, batches weigh their size; MetricsConc.tla does the same per atomic "
+                "operation for reports concurrent with observers / pushers / exits (envelope between completed-before and invoked-before totals). Leaf "
+                "behaviours are replayed through the public nm API on real threads with fresh event names under bucket embeddings that map the model's "
+                "OV onto the code's 63 and magnitudes onto i64 extremes and bounds +-1 (sums judged exactly with 16-bit limbs); plus seeded random "
+                "histories and concurrent rounds; Report::collect() after every step is judged by Trace_Metrics / Trace_MetricsConc in TLC.",
+        "note": "Bounds in evidence tlc_runs (2 threads, <=4 model buckets, short histories). Sums are judged only while every partial sum fits i64. "
+                "Trusted: TLC, JoinHandle::join ordering after thread-local teardown, the SeqCst stamp counter of the concurrent driver.",
+        "technique": "TLA+ explorers + judge checked by TLC; leaf behaviours replayed through the public API under boundary embeddings; trace validation by TLC",
+    },
+    "C17": {
+        "text": "TLC checks ParBench.tla (main + N workers, command and one-shot result channels, barrier, callback sequence, switches mirroring the tree) "
+                "for every placement of a panic in any callback of any worker against ParBenchAbs step by step: prepare once, body exactly k times, even "
+                "groups, released together, one output per thread, and nothing touches borrowed state after execute_on returned or unwound. Every "
+                "enumerated placement is replayed on the real ThreadPool with harness callbacks (healthy workers held back so that execute_on gets the "
+                "chance to leave early; borrowed state is a leaked flag object so a late access is an event, not UB), healthy runs for 1..16 threads x "
+                "dividing group counts x k; every recorded trace is judged by Trace_ParBench in TLC.",
+        "note": "Bounds: n <= 3 workers, k <= 2, every placement. A late access is observed only within the gate + quiet period (timeouts can hide a late "
+                "access, never invent one). Trusted: TLC, the harness callbacks as the only accesses to borrowed state.",
+        "technique": "TLA+ explorer + judge checked by TLC over every panic placement; each placement replayed on the real pool; trace validation by TLC",
+    },
+    "C18": {
+        "text": "TLC checks AllocTracker.tla (never-cleared registry of per-thread counters with lazy registration, thread and process spans nested and "
+                "overlapping, ended on any thread where the type allows, OperationMetrics, merged reports) against AllocTrackerAbs for every history of "
+                "alloc / alloc_zeroed / realloc / dealloc and span start / end: span = difference of the relevant counters, realloc = one call + full new "
+                "size, frees count nothing, reports = sums of spans, transparency of each call. Leaf behaviours are replayed across real threads on "
+                "alloc_tracker::Allocator wrapping a recording inner allocator (called directly, not installed), plus seeded random behaviours on 1..16 "
+                "threads and free-running thread spans; the inner allocator's call log, returned pointers and every report are judged by "
+                "Trace_AllocTracker in TLC.",
+        "note": "Bounds: 2 threads, short histories (evidence tlc_runs). The tracker is exercised by direct calls, not as #[global_allocator]. Totals kept "
+                "below 2^31. Trusted: TLC, channel handshakes sequencing the behaviours.",
+        "technique": "TLA+ explorer + judge checked by TLC; leaf behaviours replayed on the real allocator wrapper; trace validation by TLC",
+    },
+    "C19": {
+        "text": "TLC checks LocalStore.tla (local.rs step by step at the named verif points: validate key, create dirs, exists?, temp file, chunks, "
+                "flush, rename / cleanup; get, list, delete, put_overwrite; Crash enabled at every writer pc) against StoreAbs, a linearizable write-once "
+                "register with dying clients (configuration-set monitor): a key path never holds a partial object, listings never show reserved names, "
+                "after a crash at any point a fresh reader sees the old or the new complete object; StoreKeys.tla decides the key rule for every string "
+                "over a 6-symbol alphabet. One schedule per distinct terminal state, every crash case (kind x prior content x crash point x payload) in "
+                "child processes (hook H9), every enumerated key and seeded random programs are executed on the real LocalStorage and judged by "
+                "Trace_Store in TLC (strict judge: the documented write-once register; relaxed judge separates the known check/rename split).",
+        "note": "Process death, not power loss (page cache survives); rename / unlink / create / readdir atomic w.r.t. each other (POSIX, one local file "
+                "system); gzip as an abstract bijection, read-back observed on sampled payloads; Unix path semantics. Known finding S10 (overlapping "
+                "non-overwrite puts) is listed in known_findings.json.",
+        "technique": "TLA+ explorer with crash actions + linearizability judge checked by TLC; crash-point and schedule replay on the real store; trace validation by TLC",
+    },
+    "C20": {
+        "text": "RankStats.tla states the statistics as definitions over integers and exact rationals (doubled average ranks, Mann-Whitney U, probability "
+                "of superiority, exact two-sided p as doubled permutation tail over all splits with ties, Mann-Kendall S and tie-corrected variance, "
+                "Pettitt statistic and first arg-max, Theil-Sen slope, medians, Benjamini-Hochberg step-up with caller family size); TLC enumerates "
+                "every weak order of <=6 (thorough 7) points x every split, checks swap symmetry and invariance under increasing maps on the "
+                "definitions and prints stimuli; each is run through cbh_stats under several strictly increasing embeddings (1e300 scale, subnormal, "
+                "negative, offset) and swapped; the judge re-evaluates the definitions in TLC on every recorded input and compares integers exactly and "
+                "p-values against the exact rational within 1e-12 relative, range [1e-15, 1].",
+        "note": "Discrete part only: the accuracy of the normal tail, Student t and Pettitt's exponential approximation is NOT decided (only range, "
+                "'no evidence' = 1 and monotonicity in the exact statistic). Exhaustive bound n <= 6-7, the property names 10; larger inputs sampled.",
+        "technique": "TLA+ definitional judge evaluated by TLC on every weak order within the bound; stimuli replayed into the real functions; trace validation by TLC",
+    },
 }
